@@ -3897,15 +3897,17 @@ size_t ZBUFFv05_decompressContinue(ZBUFFv05_DCtx* zbc, void* dst, size_t* maxDst
                     size_t neededInSize = BLOCKSIZE;   /* a block is never > BLOCKSIZE */
                     if (zbc->inBuffSize < neededInSize) {
                         free(zbc->inBuff);
-                        zbc->inBuffSize = neededInSize;
+                        zbc->inBuffSize = 0;
                         zbc->inBuff = (char*)malloc(neededInSize);
                         if (zbc->inBuff == NULL) return ERROR(memory_allocation);
+                        zbc->inBuffSize = neededInSize;
                     }
                     if (zbc->outBuffSize < neededOutSize) {
                         free(zbc->outBuff);
-                        zbc->outBuffSize = neededOutSize;
+                        zbc->outBuffSize = 0;
                         zbc->outBuff = (char*)malloc(neededOutSize);
                         if (zbc->outBuff == NULL) return ERROR(memory_allocation);
+                        zbc->outBuffSize = neededOutSize;
                 }   }
                 if (zbc->hPos) {
                     /* some data already loaded into headerBuffer : transfer into inBuff */
